@@ -167,6 +167,73 @@ def _boxplus(kind):
     return fn
 
 
+def _results_are_values(kind):
+    """a result is a value: a later operation neither changes an earlier result nor shares memory with it, and a result
+    can be fed straight back as an operand (a (+) (b (+) x) is M_a M_b x)"""
+    pt = POINT_OF[kind]
+
+    def fn(P, g):
+        import numpy
+
+        np = P.np
+        a = mk_pose(P, g, kind, "a", wrapped=True)
+        b = mk_pose(P, g, kind, "b", wrapped=True)
+        q = mk_pose(P, g, pt, "q")
+        q2 = mk_pose(P, g, pt, "q2")
+        n = COMPACT[pt]
+        Ma, Mb = ref_matrix(P, g, kind, a), ref_matrix(P, g, kind, b)
+        hom = np.array([q[i] for i in range(n)] + [1.0])
+        ops = [
+            ("point", lambda: a + q, lambda: b + q2),
+            ("raw_point", lambda: a + np.array([q[i] for i in range(n)]), lambda: b + np.array([q2[i] for i in range(n)])),
+            ("oplus", lambda: a + b, lambda: b + a),
+            ("ominus", lambda: a - b, lambda: b - a),
+            ("inverse", lambda: a.inverse, lambda: b.inverse),
+            ("copy", lambda: a.copy(), lambda: b.copy()),
+        ]
+        for name, first, second in ops:
+            r1 = first()
+            keep = numpy.array(r1.to_array(), copy=True)
+            r2 = second()
+            P.check("%s:no_shared_memory" % name, not numpy.shares_memory(numpy.asarray(r1), numpy.asarray(r2)))
+            P.check_eq("%s:earlier_result_unchanged" % name, r1.to_array(), keep)
+        # results as operands
+        P.check_eq("nested_point_action", (a + (b + q)).to_array(), np.dot(Ma, np.dot(Mb, hom))[:n])
+        raw = np.array([q[i] for i in range(n)])
+        P.check_eq("nested_raw_point_action", (a + (b + raw)).to_array(), np.dot(Ma, np.dot(Mb, hom))[:n])
+        P.check_eq("nested_oplus", ref_matrix(P, g, kind, a + (b + a)), np.dot(Ma, np.dot(Mb, Ma)))
+
+    return fn
+
+
+def _int_operands(kind):
+    """raw numpy operands of INTEGER dtype (np.array([3, 4])): the point action and the update are those of the same
+    numbers as floats (no truncation through the operand's dtype)"""
+
+    def fn(P, g):
+        import numpy
+
+        np = P.np
+        cls = pose_cls(g, kind)
+        a = mk_pose(P, g, kind, "a", wrapped=True)
+        n = COMPACT[POINT_OF[kind]]
+        Ma = ref_matrix(P, g, kind, a)
+        for pt in ([3, 4, -2][:n], [0, -1, 5][:n]):
+            expect = np.dot(Ma, np.array([float(x) for x in pt] + [1.0]))[:n]
+            P.check_eq("int_point_action", (a + numpy.array(pt)).to_array(), expect)
+        for inc in ([2, -1, 1, 0, 0, 0], [0, 3, 0, 0, 1, 0]):
+            d = inc[: COMPACT[kind]] if kind != "SE2" else inc[:3]
+            if kind in ("SE2", "SE3"):
+                ref = a + numpy.array([float(x) for x in d])
+                got = a + numpy.array(d)
+                P.check_eq("int_boxplus", got.to_array(), ref.to_array())
+                b = a.copy()
+                b += numpy.array(d)
+                P.check_eq("int_iadd", b.to_array(), ref.to_array())
+
+    return fn
+
+
 def cases(tier):
     out = []
     v = 2 if tier == "quick" else 6
@@ -176,4 +243,7 @@ def cases(tier):
         out.append(Case("assoc-" + k, _assoc(k), timeout=10, old_timeout=60, validate=v))
         out.append(Case("point-" + k, _point(k), timeout=20, validate=v))
         out.append(Case("boxplus-" + k, _boxplus(k), timeout=20, validate=v))
+        out.append(Case("values-" + k, _results_are_values(k), timeout=20, old_timeout=30, validate=v, cert_first=(k == "SE3")))
+        if k in ("SE2", "SE3"):
+            out.append(Case("int-operands-" + k, _int_operands(k), timeout=20, validate=v))
     return out
